@@ -1,0 +1,140 @@
+//go:build verif
+
+package base
+
+// Contracts for property C19 (document bodies come back exactly as written): the JSON splice used to
+// add the reserved properties (_id, _rev, ...) to a stored body. Comment-only; read by /verif/engine.
+
+//@ props C19
+
+// '{' = 0x7b = 123, '}' = 0x7d = 125
+//
+// JSON white space (RFC 8259) is space, \t, \n, \r. isJSONObject decides "empty" with bytes.TrimSpace, whose
+// notion of space is wider: the six ASCII characters \t \n \v \f \r ' ' (pred c19Space in
+// /verif/trusted/c19_bytes.spec) and the multi-byte Unicode spaces (all bytes >= 0x80). Every JSON white-space
+// byte is a TrimSpace space, hence [is-empty-complete]: an object with only JSON white space between the braces
+// ("{}", "{ }", "{\n}") is reported empty. Conversely [is-empty-sound]: when it is reported empty every byte
+// between the braces is a TrimSpace space -- none of them is '"' (34), the byte every member starts with, so a
+// VALID JSON object that is reported empty has no members (for valid JSON the two notions coincide: "empty iff
+// no members"); \v, \f or a Unicode space between the braces is not valid JSON in the first place.
+//@ pred jsonWs(c byte) bool
+//@   is c == 32 || c == 9 || c == 10 || c == 13
+//@ pred noMembers(b []byte, lo int, hi int) bool
+//@   is forall p int :: {b[p]} lo < p && p < hi - 1 ==> jsonWs(b[p])
+//@ pred spaceOnly(b []byte, lo int, hi int) bool
+//@   is forall p int :: {b[p]} lo < p && p < hi - 1 ==> c19Space(b[p]) || b[p] >= 128
+
+//@ func isJSONObject
+//@   safety on
+//@   ensures[is-object] isJSONObject <==> len(b) >= 2 && b[0] == 123 && b[len(b)-1] == 125
+//@   ensures[is-empty-complete] isJSONObject && noMembers(b, 0, len(b)) ==> isEmpty
+//@   ensures[is-empty-sound]    isEmpty ==> isJSONObject && spaceOnly(b, 0, len(b))
+//@   ensures[input]     forall p int :: {b[p]} 0 <= p && p < len(b) ==> b[p] == old(b[p])
+
+// ---- the splice ----
+//
+// kvOff(kvs, i) stands for the number of bytes the first i pairs occupy in the output, each with its
+// 4 bytes of overhead (comma, two quotes, colon): the sum over j < i of len(key_j) + len(val_j) + 4.
+// The specification language has no recursive definitions, so kvOff is an UNINTERPRETED function and
+// every clause that uses it is stated under the hypothesis kvOffDef(kvs) (kvOff satisfies the defining
+// recurrence in the current state). The clauses are proved for every interpretation of kvOff, in
+// particular for the real sum (which satisfies the recurrence); nothing is assumed (no axiom).
+//@ fn kvOff(kvs []KVPairBytes, i int) int
+//@ pred kvOffDef(kvs []KVPairBytes) bool
+//@   is kvOff(kvs, 0) == 0 && (forall i int :: {kvs[i]} 0 <= i && i < len(kvs) ==> kvOff(kvs, i+1) == kvOff(kvs, i) + len(kvs[i].Key) + len(kvs[i].Val) + 4)
+
+// position in the output of the opening quote of pair i (the comma, if any, is just before it)
+//@ pred kvPos(b []byte, empty bool, kvs []KVPairBytes, i int) int
+//@   is len(b) + kvOff(kvs, i) - ite(empty, 1, 0)
+
+// the bytes of out from position q on are "key": / the bytes of val
+//@ pred kvKeyAt(out []byte, kv KVPairBytes, q int) bool
+//@   is forall p int :: {out[p]} q <= p && p < q + len(kv.Key) + 3 ==> out[p] == ("\"" + kv.Key + "\":")[p - q]
+//@ pred kvValAt(out []byte, kv KVPairBytes, q int) bool
+//@   is forall p int :: {out[p]} q <= p && p < q + len(kv.Val) ==> out[p] == kv.Val[p - q]
+
+//@ func injectJSONPropertyFromBytes
+//@   requires len(b) >= 1 && (bIsEmpty ==> len(kvPairs) >= 1)
+//@   ensures[len]   kvOffDef(kvPairs) ==> len(newJSON) == kvPos(b, bIsEmpty, kvPairs, len(kvPairs))
+//@   ensures[body]  kvOffDef(kvPairs) ==> forall p int :: {newJSON[p]} 0 <= p && p < len(b) - 1 ==> newJSON[p] == b[p]
+//@   ensures[comma] kvOffDef(kvPairs) ==> (forall i int :: {kvOff(kvPairs, i)} 0 <= i && i < len(kvPairs) && (i > 0 || !bIsEmpty) ==> newJSON[kvPos(b, bIsEmpty, kvPairs, i) - 1] == ","[0])
+//@   ensures[key]   kvOffDef(kvPairs) ==> (forall i int :: {kvPairs[i]} 0 <= i && i < len(kvPairs) ==> kvKeyAt(newJSON, kvPairs[i], kvPos(b, bIsEmpty, kvPairs, i)))
+//@   ensures[val]   kvOffDef(kvPairs) ==> (forall i int :: {kvPairs[i]} 0 <= i && i < len(kvPairs) ==> kvValAt(newJSON, kvPairs[i], kvPos(b, bIsEmpty, kvPairs, i) + len(kvPairs[i].Key) + 3))
+//@   ensures[close] kvOffDef(kvPairs) ==> len(newJSON) >= 1 && newJSON[len(newJSON) - 1] == "}"[0]
+//@   loop * invariant[idx]  #index < len(kvPairs)
+//@   loop 1 invariant[sum]  kvOffDef(kvPairs) ==> newJSONLength == len(b) + kvOff(kvPairs, #index+1)
+//@   loop 1 invariant[lower] newJSONLength >= len(b) + 4 * (#index + 1)
+//@   loop 1 invariant[mono] kvOffDef(kvPairs) ==> (forall i int, j int :: {kvOff(kvPairs, i), kvOff(kvPairs, j)} 0 <= i && i <= j && j <= #index+1 ==> kvOff(kvPairs, i) + 4 * (j - i) <= kvOff(kvPairs, j))
+//@   loop 2 invariant[off]   kvOffDef(kvPairs) ==> offset == len(b) - 1 + kvOff(kvPairs, #index+1) - ite(bIsEmpty && #index >= 0, 1, 0)
+//@   loop 2 invariant[bounds] kvOffDef(kvPairs) ==> len(b) - 1 <= offset && offset < len(newJSON)
+//@   loop 2 invariant[body]  kvOffDef(kvPairs) ==> forall p int :: {newJSON[p]} 0 <= p && p < len(b) - 1 ==> newJSON[p] == b[p]
+//@   loop 2 invariant[comma] kvOffDef(kvPairs) ==> (forall i int :: {kvOff(kvPairs, i)} 0 <= i && i <= #index && (i > 0 || !bIsEmpty) ==> newJSON[kvPos(b, bIsEmpty, kvPairs, i) - 1] == ","[0])
+//@   loop 2 invariant[key]   kvOffDef(kvPairs) ==> (forall i int :: {kvPairs[i]} 0 <= i && i <= #index ==> kvKeyAt(newJSON, kvPairs[i], kvPos(b, bIsEmpty, kvPairs, i)))
+//@   loop 2 invariant[val]   kvOffDef(kvPairs) ==> (forall i int :: {kvPairs[i]} 0 <= i && i <= #index ==> kvValAt(newJSON, kvPairs[i], kvPos(b, bIsEmpty, kvPairs, i) + len(kvPairs[i].Key) + 3))
+
+// out is t without its closing brace, followed by the pairs, followed by "}" (byte for byte)
+//@ pred spliced(out []byte, t []byte, empty bool, kvs []KVPairBytes) bool
+//@   is kvOffDef(kvs) ==> len(out) == kvPos(t, empty, kvs, len(kvs)) &&
+//@        (forall p int :: {out[p]} 0 <= p && p < len(t) - 1 ==> out[p] == t[p]) &&
+//@        (forall i int :: {kvOff(kvs, i)} 0 <= i && i < len(kvs) && (i > 0 || !empty) ==> out[kvPos(t, empty, kvs, i) - 1] == ","[0]) &&
+//@        (forall i int :: {kvs[i]} 0 <= i && i < len(kvs) ==> kvKeyAt(out, kvs[i], kvPos(t, empty, kvs, i))) &&
+//@        (forall i int :: {kvs[i]} 0 <= i && i < len(kvs) ==> kvValAt(out, kvs[i], kvPos(t, empty, kvs, i) + len(kvs[i].Key) + 3)) &&
+//@        len(out) >= 1 && out[len(out) - 1] == "}"[0]
+
+// The body handed to the splice is the window of b that bytes.TrimSpace kept (an object: first byte '{', last
+// byte '}'), the pairs are the given pairs, and the result is the splice (stated at the call, where the window
+// is at hand; the function returns that result). The `empty` flag is the subject of the clause below.
+//@ func InjectJSONPropertiesFromBytes
+//@   safety on
+//@   ensures[noop]    len(kvPairs) == 0 ==> new == b && isNilErr(err)
+//@   ensures[error]   !isNilErr(err) ==> new == nil
+//@   ensures[accepts] len(b) >= 2 && b[0] == 123 && b[len(b) - 1] == 125 ==> isNilErr(err)
+//@   after[spliced-exact] call injectJSONPropertyFromBytes#1 len($0) >= 2 && $0 == b[c19WinLo(b, $0) : c19WinLo(b, $0) + len($0)] && 0 <= c19WinLo(b, $0) && c19WinLo(b, $0) + len($0) <= len(b) &&
+//@                       $0[0] == 123 && $0[len($0) - 1] == 125 && $2 == kvPairs && spliced($r0, $0, $1, $2)
+// Property clause (the result must be the same JSON value plus the injected members): no separator may precede
+// the first injected pair exactly when the object has no members, i.e. the `empty` flag handed to the splice is
+// true whenever only JSON white space separates the braces, and when it is true nothing but (TrimSpace) white
+// space separates them -- "iff no members" on every valid JSON body, see the note on isJSONObject above.
+// This clause FAILED on the original code for a body such as "{ }" (isJSONObject reported "empty" only for the
+// two-byte object, so `{ ,"k":v}` was produced): finding F8, FIXED in commit f422759; demonstration
+// /verif/findings/F8_empty_object_space_test.go.
+//@   after[empty-flag-iff-no-members] call injectJSONPropertyFromBytes#1 (noMembers($0, 0, len($0)) ==> $1) && ($1 ==> spaceOnly($0, 0, len($0)))
+
+//@ func StringSliceContains
+//@   props C19
+//@   ensures[member] result <==> elem(set, target)
+
+// TRUSTED: json.NewDecoder / jsoniter.NewDecoder allocate a new decoder around the reader; the new decoder
+// is non-nil and is not in number mode (see c19NumberMode in /verif/trusted/c19_bytes.spec). No other effect.
+//@ func JSONDecoder
+//@   props C19
+//@   trusted
+//@   ensures[fresh] !isNilErr(result) && !(result in c19NumberMode)
+
+// TRUSTED frame: the JSON encoder (encoding/json or jsoniter Marshal) only reads its argument and allocates
+// the result; a successful encoding is never a nil slice (every JSON value has at least one character).
+// Nothing else is assumed about the bytes it returns. (Single contract, shared with C09.)
+//@ func JSONMarshal
+//@   props C19 C09
+//@   trusted
+//@   inert
+//@   ensures[non-nil] isNilErr(result1) ==> result0 != nil
+
+// Same splice, after each value has been encoded (strconv for integers and booleans, JSONMarshal otherwise):
+// the keys are the given keys, the body bytes are untouched, an encoding error or a non-object body yields
+// (nil, err) -- never a partially spliced body.
+//@ func InjectJSONProperties
+//@   safety on
+//@   ensures[noop]    len(kvPairs) == 0 ==> new == b && isNilErr(err)
+//@   ensures[error]   !isNilErr(err) ==> new == nil
+//@   ensures[input]   forall p int :: {b[p]} 0 <= p && p < len(b) ==> b[p] == old(b[p])
+// What is handed to the splice and what comes back, stated at the call (no existential needed there): the body
+// is the window of b that bytes.TrimSpace kept, the pairs carry the given keys, the result is the splice.
+//@   after[spliced-exact] call injectJSONPropertyFromBytes#1 len($0) >= 2 && $0 == b[c19WinLo(b, $0) : c19WinLo(b, $0) + len($0)] && 0 <= c19WinLo(b, $0) && c19WinLo(b, $0) + len($0) <= len(b) &&
+//@                       $0[0] == 123 && $0[len($0) - 1] == 125 && len($2) == len(kvPairs) &&
+//@                       (forall i int :: {$2[i]} 0 <= i && i < len(kvPairs) ==> $2[i].Key == kvPairs[i].Key) && spliced($r0, $0, $1, $2)
+// Same property clause as on InjectJSONPropertiesFromBytes (failed before the fix of finding F8, see there).
+//@   after[empty-flag-iff-no-members] call injectJSONPropertyFromBytes#1 (noMembers($0, 0, len($0)) ==> $1) && ($1 ==> spaceOnly($0, 0, len($0)))
+//@   loop 1 invariant[idx]   #index < len(kvPairs)
+//@   loop 1 invariant[input] forall p int :: {b[p]} 0 <= p && p < len(b) ==> b[p] == old(b[p])
+//@   loop 1 invariant[keys]  forall i int :: {kvPairsBytes[i]} 0 <= i && i <= #index ==> kvPairsBytes[i].Key == kvPairs[i].Key
